@@ -1,4 +1,4 @@
-import Octo.Lemmas.TrigBuffer
+import Octo.Lemmas.TrigSimple
 /-!
 # C16 — Triggers change when results appear, never what the final result is
 
@@ -73,6 +73,22 @@ theorem C16_full : Statement wlessFixed := by
   refine ⟨gbRun wlessFixed C (buffer s), by simp [run, hall], fun row => ?_⟩
   rw [trigger_transparent C nk hC.keyLen hlive, table_eq_spec C nk hC _ hs.validBuffered]
   exact groupSpec_congr C nk hC _ _ (fun row' => net_buffer s hs.etRange row') hs.validBuffered hs.valid row
+
+/-- **`SimpleGroupBy` — the node the planner picks for the default trigger — computes the batch grouping.** -/
+theorem simple_is_groupSpec (C : GBConf) (nk : Nat) (hC : ConfGood C nk) (s : List Msg) (hv : ValidLog (recs s))
+    (row : Row) : net (recs (simpleRun C s)) row = groupSpec C nk (recs s) row := by
+  rw [simple_eq_table C nk hC.keyLen, table_eq_spec C nk hC _ hv]
+
+/-- **Any TRIGGER clause gives what no TRIGGER clause gives**: the custom-trigger node (any configuration,
+    behind its event-time buffer) and `SimpleGroupBy` agree on the consolidated result of every valid input. -/
+theorem custom_eq_simple (C : GBConf) (nk : Nat) (hC : ConfGood C nk) (hlive : C.cfg.live = true) (s : List Msg)
+    (hs : ValidInput C s) (row : Row) :
+    net (recs (gbRun wlessFixed C (buffer s))) row = net (recs (simpleRun C s)) row := by
+  obtain ⟨out, hrun, hnet⟩ := C16_full C nk hC hlive s hs
+  have hall : (recs s).all (fun r => stepOk C r.vals) = true := by
+    rw [List.all_eq_true]; exact hs.noPanic
+  simp only [run, hall, if_true, Option.some.injEq] at hrun
+  rw [hrun, hnet row, simple_is_groupSpec C nk hC s hs.valid]
 
 /-! ## Non-vacuity, and the refutation of the code as shipped -/
 
